@@ -31,7 +31,7 @@ REACH = {"quick": {"op:rbind": 2000, "op:rename": 500, "op:colnames": 500, "op:s
 OPS = ["rbind", "rbind", "rbind", "select", "unselect", "rename", "cbind", "update", "modify", "colnames"]
 PROMOTE = {"int": ["int", "float", "bool"], "float": ["float", "int", "bool"], "bool": ["bool", "int"], "date": ["date", "datetime"],
            "datetime": ["datetime", "date"], "str": ["str", "lstr", "ustr"], "lstr": ["lstr", "str"], "ustr": ["ustr", "str"], "obool": ["obool"], "obj": ["obj"],
-           "timedelta": ["timedelta"], "datetime_ns": ["datetime_ns", "datetime"], "uint64": ["uint64"], "float32": ["float32", "float"]}
+           "timedelta": ["timedelta"], "datetime_ns": ["datetime_ns", "datetime"], "uint64": ["uint64"], "float32": ["float32", "float"], "complex": ["complex"]}
 NAMES = ["a", "b", "c", "d", "e", "f", "ab", "e_f", "a*", "e?", "[ab]"]      # some names are substrings of others, some look like shell / regex patterns
 
 def generate(rng, tier):
@@ -53,7 +53,7 @@ def generate(rng, tier):
                 if n in kind_of:
                     kind = rng.choice(PROMOTE[kind_of[n]]) if rng.random() < 0.4 else kind_of[n]
                 else:
-                    kind = rng.choice(["int", "float", "bool", "str", "date", "datetime", "obool", "lstr", "ustr", "obj", "timedelta", "datetime_ns", "uint64", "float32"])
+                    kind = rng.choice(["int", "float", "bool", "str", "date", "datetime", "obool", "lstr", "ustr", "obj", "timedelta", "datetime_ns", "uint64", "float32", "complex"])
                     kind_of[n] = kind
                 if nrow == 0 and empty_float:
                     kind = "float"        # a frame without rows that was made from empty lists: DataFrame(a=[], b=[]) has float columns
@@ -190,9 +190,12 @@ def execute(case):
         mixed = {n for n in names if len({k for s in frames for nn, k, _ in s if nn == n}) > 1}
         if mixed: res.cls("rbind:promoted-dtypes")
         expected = []
+        padded = {}
         for n in names:
             cells = []
+            padded[n] = []
             for p, nr in zip(pres, nrows):
+                padded[n] += [n not in p] * nr
                 cells += p[n] if n in p else [canon.NA] * nr
             expected.append((n, cells))
         ctx = f"rbind of {canon.short(frames, 1500)}"
@@ -203,6 +206,18 @@ def execute(case):
             res.violate(f"rbind:raised:{exc_name(e)}:{feat}", f"raised {e!r}; {ctx}")
             return res.dict()
         _compare(res, op, out, expected, ctx, promote=True)
+        if lacking and list(dict.keys(out)) == [n for n, _ in expected]:
+            # "missing values in a type able to hold them": the padded cells must be missing in the library's OWN sense (is_na), not only look like it
+            for n, cells in expected:
+                try:
+                    flags = [bool(x) for x in np.asarray(dict.__getitem__(out, n).is_na()).tolist()]
+                except Exception as e:
+                    res.violate(f"rbind:is_na-raised:{exc_name(e)}", f"column {n!r}: {e!r}; {ctx}"); break
+                pad = padded[n]
+                if len(flags) == len(pad) and any(p_ and not f_ for p_, f_ in zip(pad, flags)):
+                    res.violate("rbind:padding-not-missing-for-is_na", f"column {n!r} dtype {np.asarray(dict.__getitem__(out, n)).dtype}: is_na {flags} but the positions {pad} were contributed by inputs lacking the column; {ctx}")
+                    break
+                res.count("rbind:is_na-of-result-checked")
         for d, p in zip(dfs, pres):
             if canon.frame_cells(d) != p:
                 res.violate("rbind:mutated-input", ctx)
